@@ -62,8 +62,8 @@ def ij_to_face(ij: IJ) -> Face:
 def to_spherical(xyz: Cartesian) -> Spherical:
     """Convert Cartesian coordinates to spherical coordinates."""
     theta = cast(Radians, math.atan2(xyz[1], xyz[0]))
-    r = vec3.length(xyz)
-    phi = cast(Radians, math.acos(xyz[2] / r))
+    # atan2 keeps the colatitude accurate next to the z axis, where acos(z / r) quantises to ~1.5e-8 rad
+    phi = cast(Radians, math.atan2(math.hypot(xyz[0], xyz[1]), xyz[2]))
     return cast(Spherical, (theta, phi))
 
 def to_cartesian(spherical: Spherical) -> Cartesian:
